@@ -125,6 +125,7 @@ RedFailed(e) ==
       inscope == \A k \in 1..n : InScope(vals[k])
   IN IF ~inscope THEN {"~out-of-scope"}
      ELSE IF Has(e, "exc") THEN {"raises"}
+     ELSE IF Has(e, "badshape") THEN {"wrong-shape"}      \* the result is not laid out along the requested axis
      ELSE CASE fn \in {"argmin", "argmax"} ->
             IF e.idx \in 0..(n - 1) /\ REq(vals[e.idx + 1], Extreme(vals, IF fn = "argmax" THEN 1 ELSE -1))
             THEN {} ELSE {"index-not-at-extremum"}
